@@ -572,12 +572,20 @@ class Gen:
             # exactly one load, at a random (even or odd) instruction index, feeds the branch conditions
             for _ in range(r.randint(0, 3)):
                 self.alu()
-            areg = self.fresh.pop()
-            a = r.randrange(0, p.memsize - 4, 4)
-            self.p.ins('li', areg, imm=a)
+            a = r.randrange(0, min(p.memsize, 2048) - 4, 4)
+            if r.random() < 0.5:
+                areg = self.fresh.pop()
+                self.p.ins('li', areg, imm=a)
+                off = 0
+            else:
+                areg, off = 0, a          # absolute address off the zero register: no producer to wait for
             self.slow_reg = self.fresh.pop()
-            self.p.ins(r.choice(['lw', 'lw', 'lb']), self.slow_reg, areg, imm=0)
+            self.p.ins(r.choice(['lw', 'lw', 'lb']), self.slow_reg, areg, imm=off)
             p.tags.add('load')
+            if r.random() < 0.5:
+                # the branch directly behind the load (both reach the control unit together)
+                self.branch_fwd(slow_cond=True)
+                self.single_done = True
         if prof in ('mem', 'stld', 'mixed', 'tail', 'ldonly', 'ldslow', 'evict'):
             self.set_addr()
         while self.n() < target and self.room(6):
